@@ -120,7 +120,7 @@ def find_overlap_detector(ctx: Ctx, top: Func) -> Tuple[Func, ast.Raise]:
         if fn is top and isinstance(n, ast.Call):
             fs, _ = ctx.prog.callees(top, n, ctx._types)
             for c in fs:
-                if c.module.name.startswith("dds.structures_utils") or "leaves" in c.name or "overlap" in c.name:
+                if c.module.name.startswith("dds") and c.module.name not in ("dds._config",) and c.positional_params():
                     return c, r
     raise AnchorError("role overlap-detector (callee whose result guards the OVERLAPPING_PATH raise) not found")
 
@@ -681,9 +681,14 @@ def _overlap_input(ctx: Ctx, top: Func, detector: Func) -> None:
         rep.unknown("C11.R6", top.qname, "cannot relate the overlap detector's input to the evaluation's path map", top.loc())
         return
     dc = dcalls[0]
+    # whichever argument carries the paths (positional order is the detector's own business)
     arg = dc.args[0] if dc.args else None
-    sl = ctx.slicer(follow_calls=False).slice(top, arg) if arg is not None else None
-    same = sl is not None and sl.find(lambda f_, n_: isinstance(n_, ast.Name) and n_.id == req.id and set(fl.defs_of_use(n_)) == set(fl.defs_of_use(req))) is not None
+    same = False
+    for a_ in list(dc.args) + [k.value for k in dc.keywords]:
+        sl = ctx.slicer(follow_calls=False).slice(top, a_)
+        if sl.find(lambda f_, n_: isinstance(n_, ast.Name) and n_.id == req.id and set(fl.defs_of_use(n_)) == set(fl.defs_of_use(req))) is not None:
+            same, arg = True, a_
+            break
     desc = "the overlap test examines the keys of the evaluation's complete path map"
     if not same:
         rep.bad("C11.R6", top.qname, desc, top.loc(dc), [f"detector input `{unparse(arg, 60)}` does not derive from `{req.id}` (the map assigned to requested_paths)"],
